@@ -687,4 +687,140 @@ theorem strictSorted_unique : ∀ (l1 l2 : List Bytes), StrictSorted l1 → Stri
         · exact absurd h.symm ((hy.1 z hz).2)
         · exact h
 
+/-! ### presentation names, binding -/
+
+theorem lowerByte_toNat (c : UInt8) :
+    (lowerByte c).toNat = if 65 ≤ c.toNat ∧ c.toNat ≤ 90 then c.toNat + 32 else c.toNat := by
+  unfold lowerByte
+  split
+  · rw [toNat_ofNat_lt _ (by omega)]
+  · rfl
+
+theorem lowerByte_idem (c : UInt8) : lowerByte (lowerByte c) = lowerByte c := by
+  apply UInt8.toNat_inj.mp
+  rw [lowerByte_toNat (lowerByte c), lowerByte_toNat c]
+  split <;> (try split) <;> omega
+
+/-- lowercasing never creates or destroys a non-letter such as `.` or `\`. -/
+theorem lowerByte_eq_nonletter (c k : UInt8) (hk : k.toNat < 65 ∨ (90 < k.toNat ∧ k.toNat < 97) ∨ 122 < k.toNat) :
+    (lowerByte c == k) = (c == k) := by
+  have h1 : (lowerByte c == k) = decide ((lowerByte c).toNat = k.toNat) := by
+    by_cases h : lowerByte c = k
+    · simp [h]
+    · have : (lowerByte c).toNat ≠ k.toNat := fun e => h (UInt8.toNat_inj.mp e)
+      simp [h, this]
+  have h2 : (c == k) = decide (c.toNat = k.toNat) := by
+    by_cases h : c = k
+    · simp [h]
+    · have : c.toNat ≠ k.toNat := fun e => h (UInt8.toNat_inj.mp e)
+      simp [h, this]
+  rw [h1, h2, lowerByte_toNat]
+  split
+  · have a : ¬ (c.toNat + 32 = k.toNat) := by omega
+    have b : ¬ (c.toNat = k.toNat) := by omega
+    simp [a, b]
+  · rfl
+
+theorem lower_idem (s : Bytes) : lower (lower s) = lower s := by
+  unfold lower; rw [List.map_map]; congr 1; funext c; exact lowerByte_idem c
+
+theorem takeWhile_lower (k : UInt8) (hk : k.toNat < 65 ∨ (90 < k.toNat ∧ k.toNat < 97) ∨ 122 < k.toNat) (l : Bytes) :
+    ((lower l).takeWhile (· == k)).length = (l.takeWhile (· == k)).length := by
+  induction l with
+  | nil => rfl
+  | cons c t ih =>
+    simp only [lower, List.map_cons, List.takeWhile_cons, lowerByte_eq_nonletter c k hk] at ih ⊢
+    split
+    · simp [ih]
+    · rfl
+
+theorem isFqdn_lower (s : Bytes) : isFqdn (lower s) = isFqdn s := by
+  unfold isFqdn
+  have hr : (lower s).reverse = lower s.reverse := by simp [lower]
+  rw [hr]
+  cases s.reverse with
+  | nil => rfl
+  | cons c r =>
+    simp only [lower, List.map_cons]
+    have h46 := lowerByte_eq_nonletter c 46 (Or.inl (by decide))
+    have : (lowerByte c != 46) = (c != 46) := by simp only [bne, h46]
+    rw [this]
+    split
+    · rfl
+    · have := takeWhile_lower 92 (Or.inr (Or.inl (by decide))) r
+      simp only [lower] at this
+      rw [this]
+
+theorem equalFold_canonical (s k : Bytes) (h : equalFold s k = true) (hk : isFqdn k = true) :
+    equalFold (canonicalName s) k = true := by
+  unfold equalFold at h ⊢
+  have hl : lower s = lower k := by simpa using h
+  have hs : isFqdn s = true := by rw [← isFqdn_lower s, hl, isFqdn_lower k, hk]
+  unfold canonicalName fqdn
+  simp only [hs, if_true, lower_idem]
+  simpa using hl
+
+theorem isFqdn_ends (s : Bytes) (h : isFqdn s = true) : ∃ p, s = p ++ [46] := by
+  unfold isFqdn at h
+  cases hr : s.reverse with
+  | nil => rw [hr] at h; simp at h
+  | cons c r =>
+    rw [hr] at h
+    simp only at h
+    by_cases hc : c = 46
+    · refine ⟨r.reverse, ?_⟩
+      have := congrArg List.reverse hr
+      simp only [List.reverse_reverse, List.reverse_cons] at this
+      rw [this, hc]
+    · have : (c != 46) = true := by simpa using hc
+      simp [this] at h
+
+theorem canonicalName_ends (s : Bytes) : ∃ p, canonicalName s = p ++ [46] := by
+  unfold canonicalName fqdn
+  by_cases h : isFqdn s = true
+  · obtain ⟨p, hp⟩ := isFqdn_ends s h
+    refine ⟨lower p, ?_⟩
+    simp only [h, if_true]
+    rw [hp]; simp [lower, lowerByte]
+  · refine ⟨lower s, ?_⟩
+    simp only [h]
+    simp [lower, lowerByte]
+
+theorem nameInZone_suffix (name zone : Bytes) (hn : ∃ p, name = p ++ [46]) (h : nameInZone name zone = true) :
+    zone <:+ name := by
+  unfold nameInZone at h
+  by_cases hz : (zone == [46] || zone.isEmpty) = true
+  · simp only [Bool.or_eq_true, beq_iff_eq, List.isEmpty_iff] at hz
+    rcases hz with rfl | rfl
+    · obtain ⟨p, rfl⟩ := hn; exact List.suffix_append _ _
+    · exact List.nil_suffix
+  · simp only [hz, Bool.false_eq_true, if_false] at h
+    by_cases he : (name == zone) = true
+    · have : name = zone := by simpa using he
+      rw [this]; exact List.suffix_refl _
+    · simp only [he, Bool.false_eq_true, if_false] at h
+      split at h
+      · cases h
+      · split at h
+        · cases h
+        · rename_i hcond
+          simp only [Bool.or_eq_true, bne_iff_ne, ne_eq, not_or, Decidable.not_not] at hcond
+          rw [← hcond.2]
+          exact List.drop_suffix _ _
+
+theorem last3 (l : Bytes) (h : 3 ≤ l.length) :
+    ∃ init a b c, l = init ++ [a, b, c] ∧ l.getD (l.length - 3) 0 = a ∧ l.getD (l.length - 2) 0 = b := by
+  have hr3 : 3 ≤ l.reverse.length := by simpa using h
+  match hr : l.reverse, hr3 with
+  | c :: b :: a :: r, _ =>
+    have hl : l = r.reverse ++ [a, b, c] := by
+      have := congrArg List.reverse hr
+      simpa using this
+    refine ⟨r.reverse, a, b, c, hl, ?_, ?_⟩
+    · rw [hl]; simp [List.getD_eq_getElem?_getD]
+    · rw [hl]
+      simp only [List.length_append, List.length_reverse, List.length_cons, List.length_nil, List.getD_eq_getElem?_getD]
+      rw [List.getElem?_append_right (by simp)]
+      simp
+
 end SdnsVerif.Lemmas.DnssecPrim
